@@ -259,6 +259,8 @@ pub enum EvK {
     Blocked { why: String },
     JoinDone { child: Tid, ok: bool },
     MutexPoisoned,
+    /// the clock had to jump (nothing runnable) while the stdin loop was blocked on a lock or a join
+    Stall { why: String, jump_ns: u64 },
     Note { text: String },
 }
 
@@ -476,6 +478,11 @@ impl Inner {
                 }
             }
             if let Some(d) = best {
+                if !self.th.is_empty() && matches!(self.th[0].st, St::Mutex(_) | St::Join(_)) && self.th[0].role == Role::Main && !self.params.search_on_main {
+                    let why = self.th[0].st.describe();
+                    let jump_ns = d.saturating_sub(self.now);
+                    self.ev(0, EvK::Stall { why, jump_ns });
+                }
                 self.now = self.now.max(d);
                 self.wake_sleepers();
                 continue;
@@ -1191,6 +1198,7 @@ pub fn render_event(e: &Ev, names: &[ThInfo]) -> String {
         EvK::Blocked { why } => format!("blocks on {}", why),
         EvK::JoinDone { child, ok } => format!("joined t{} -> {}", child, if *ok { "Ok" } else { "Err(panic)" }),
         EvK::MutexPoisoned => "lock() returned PoisonError".into(),
+        EvK::Stall { why, jump_ns } => format!("STALL: blocked on {} while nothing can run; clock jumps {} ns to the next timer", why, jump_ns),
         EvK::Note { text } => format!("# {}", text),
     };
     format!("{:>6} {:>12}ns p{:<7} {:<8} {}", e.seq, e.t, e.tp, n, body)
